@@ -64,6 +64,7 @@ Clauses ==
    Rejected_NoEffect |-> Rejected_NoEffect(pre, ev, st),
    X15_Counters |-> X15_Counters(st),
    X15_Records |-> X15_Records(pre, ev, st),
+   X15_Fidelity |-> X15_Fidelity(pre, ev, st),
    X15_ScaleExact |-> Scale_Exact,
    X15_CrisisInvariant |-> Crisis_Invariant]
 
